@@ -18,7 +18,7 @@
 EXTENDS Naturals, Sequences, FiniteSets, TLC
 
 VARIABLES
-  cfg,    \* [kind: "q" | "rv" | "os", cap: Nat (0 = unbounded)]
+  cfg,    \* [kind: "q" | "rv" | "os" | "bc", cap: Nat (0 = unbounded)]   bc = broadcast spmc: buf is the whole log
   buf,    \* sequence of value ids held by the channel, oldest first
   tx,     \* sender handle id   |-> "live" | "closed"   (dropped handles leave the domain)
   rx,     \* receiver handle id |-> "live" | "closed"
@@ -26,10 +26,10 @@ VARIABLES
   once,   \* oneshot: a send has succeeded
   out,    \* value ids handed to the user by a receive or handed back by a failed send
   gone,   \* value ids destroyed by the channel
-  acked,  \* value ids whose send reported success
+  cur,    \* broadcast (kind "bc"): receiver handle |-> number of values it has consumed
   pend    \* operation id |-> operation in flight (see NewOp)
 
-chanVars == <<cfg, buf, tx, rx, disc, once, out, gone, acked, pend>>
+chanVars == <<cfg, buf, tx, rx, disc, once, out, gone, cur, pend>>
 
 SendOps    == {"send", "try_send", "send_batch", "try_send_batch", "send_batch_mut", "try_send_batch_mut"}
 RecvOps    == {"recv", "try_recv", "recv_timeout", "recv_batch", "try_recv_batch",
@@ -49,8 +49,12 @@ LiveR == {h \in DOMAIN rx : rx[h] = "live"}
 Rng(s) == {s[i] : i \in 1..Len(s)}
 
 Bounded == cfg.cap > 0
-HasSpace == cfg.kind = "q" /\ (~Bounded \/ Len(buf) < cfg.cap)
-IsFullNow == cfg.kind = "q" /\ Bounded /\ Len(buf) >= cfg.cap
+\* broadcast: the slowest live receiver holds the sender back (C07)
+MinOf(S) == CHOOSE x \in S : \A y \in S : x <= y
+Backlog == IF LiveR = {} THEN 0 ELSE Len(buf) - MinOf({cur[h] : h \in LiveR})
+Occupancy == IF cfg.kind = "bc" THEN Backlog ELSE Len(buf)
+HasSpace == cfg.kind \in {"q", "bc"} /\ (~Bounded \/ Occupancy < cfg.cap)
+IsFullNow == cfg.kind \in {"q", "bc"} /\ Bounded /\ Occupancy >= cfg.cap
 
 \* An operation in flight.
 \*   h       handle it was called on          op    API name
@@ -88,7 +92,7 @@ SenderRejected(o) == pend[o].h \notin DOMAIN tx \/ tx[pend[o].h] = "closed" \/ L
 CanSendOne(o) ==
   /\ IsSend(o) /\ pend[o].lin = "" /\ pend[o].vs # <<>>
   /\ ~SenderRejected(o)
-  /\ CASE cfg.kind = "q"  -> HasSpace
+  /\ CASE cfg.kind \in {"q", "bc"} -> HasSpace
        [] cfg.kind = "os" -> ~once
        [] OTHER           -> FALSE        \* rendezvous: only by Handoff
 
@@ -109,10 +113,13 @@ CanSendDone(o) == IsSend(o) /\ pend[o].lin = "" /\ pend[o].vs = <<>>
 
 ReceiverRejected(o) == pend[o].h \notin DOMAIN rx \/ rx[pend[o].h] = "closed"
 
+\* values the receive could take now: the queue head, or (broadcast) the next
+\* value of this receiver's own view
+Avail(h) == IF cfg.kind = "bc" THEN cur[h] < Len(buf) ELSE buf # <<>>
 CanRecvOneBase(o) ==
   /\ IsRecv(o) /\ pend[o].lin = "" /\ ~ReceiverRejected(o)
   /\ cfg.kind # "rv"
-  /\ buf # <<>>
+  /\ Avail(pend[o].h)
   /\ Len(pend[o].got) < pend[o].max
 
 \* C04 NoValueAfterDisc: a handle that observed Disconnected gets nothing more.
@@ -124,7 +131,7 @@ CanRecvDone(o) == IsRecv(o) /\ pend[o].lin = "" /\ pend[o].got # <<>>
 CanRecvEmpty(o) ==
   /\ IsRecv(o) /\ pend[o].lin = "" /\ pend[o].got = <<>>
   /\ pend[o].op \in TryOps \cup {"recv_timeout"}
-  /\ \/ buf = <<>> /\ (LiveS # {} \/ cfg.kind = "rv" \/ pend[o].op = "recv_timeout")
+  /\ \/ ~ReceiverRejected(o) /\ ~Avail(pend[o].h) /\ (LiveS # {} \/ cfg.kind = "rv" \/ pend[o].op = "recv_timeout")
      \/ cfg.kind = "os" /\ buf = <<>> /\ once      \* the one value was taken: Empty or Disconnected
      \/ Overlap(o)
 
@@ -135,7 +142,7 @@ NoSenderLeft == LiveS = {} /\ \A s \in DOMAIN pend : IsSend(s) => pend[s].h \not
 CanRecvDisc(o) ==
   /\ IsRecv(o) /\ pend[o].lin = "" /\ pend[o].got = <<>>
   /\ \/ ReceiverRejected(o)
-     \/ buf = <<>> /\ NoSenderLeft
+     \/ ~Avail(pend[o].h) /\ NoSenderLeft
      \/ cfg.kind = "os" /\ buf = <<>> /\ once
 
 (***************************************************************************)
@@ -159,11 +166,11 @@ SendOne(o) ==
      /\ buf' = Append(buf, v)
      /\ SetPend(o, [pend[o] EXCEPT !.vs = Tail(@), !.n = @ + 1])
   /\ once' = (once \/ cfg.kind = "os")
-  /\ UNCHANGED <<cfg, tx, rx, disc, out, gone, acked>>
+  /\ UNCHANGED <<cfg, tx, rx, disc, out, gone, cur>>
 
 Finish(o, res) ==
   /\ SetPend(o, [pend[o] EXCEPT !.lin = res])
-  /\ UNCHANGED <<cfg, buf, tx, rx, once, out, gone, acked>>
+  /\ UNCHANGED <<cfg, buf, tx, rx, once, out, gone, cur>>
 
 SendDone(o)   == CanSendDone(o)   /\ Finish(o, "ok")     /\ UNCHANGED disc
 SendClosed(o) == CanSendClosed(o) /\ Finish(o, "closed") /\ UNCHANGED disc
@@ -171,10 +178,16 @@ SendSent(o)   == CanSendSent(o)   /\ Finish(o, "sent")   /\ UNCHANGED disc
 SendFull(o)   == CanSendFull(o)   /\ Finish(o, "full")   /\ UNCHANGED disc
 
 RecvOneEff(o) ==
-  /\ buf' = Tail(buf)
-  /\ SetPend(o, [pend[o] EXCEPT !.got = Append(@, Head(buf)),
-                                !.lin = IF pend[o].op \in SingleRecv THEN "val" ELSE @])
-  /\ UNCHANGED <<cfg, tx, rx, disc, once, out, gone, acked>>
+  /\ IF cfg.kind = "bc"
+       THEN /\ UNCHANGED buf
+            /\ cur' = [cur EXCEPT ![pend[o].h] = @ + 1]
+            /\ SetPend(o, [pend[o] EXCEPT !.got = Append(@, buf[cur[pend[o].h] + 1]),
+                                          !.lin = IF pend[o].op \in SingleRecv THEN "val" ELSE @])
+       ELSE /\ buf' = Tail(buf)
+            /\ UNCHANGED cur
+            /\ SetPend(o, [pend[o] EXCEPT !.got = Append(@, Head(buf)),
+                                          !.lin = IF pend[o].op \in SingleRecv THEN "val" ELSE @])
+  /\ UNCHANGED <<cfg, tx, rx, disc, once, out, gone>>
 
 RecvOne(o) == CanRecvOne(o) /\ RecvOneEff(o)
 
@@ -196,7 +209,7 @@ Handoff(s, r) ==
   /\ ~(pend[s].op \in TryOps /\ pend[r].op \in TryOps)
   /\ pend' = [pend EXCEPT ![s] = [@ EXCEPT !.vs = Tail(@), !.n = @ + 1, !.lin = "ok"],
                           ![r] = [@ EXCEPT !.got = <<Head(pend[s].vs)>>, !.lin = "val"]]
-  /\ UNCHANGED <<cfg, buf, tx, rx, disc, once, out, gone, acked>>
+  /\ UNCHANGED <<cfg, buf, tx, rx, disc, once, out, gone, cur>>
 
 \* close: succeeds once per handle (C04 CloseIdempotent); drop: the handle is gone.
 LifeLin(o) ==
@@ -213,7 +226,7 @@ LifeLin(o) ==
             /\ tx' = [x \in DOMAIN tx \ {h} |-> tx[x]]
             /\ rx' = [x \in DOMAIN rx \ {h} |-> rx[x]]
             /\ disc' = disc \ {h}
-  /\ UNCHANGED <<cfg, buf, once, out, gone, acked>>
+  /\ UNCHANGED <<cfg, buf, once, out, gone, cur>>   \* (a dropped receiver's cursor is simply no longer looked at)
 
 Lin(o) ==
   \/ SendOne(o) /\ UNCHANGED disc
@@ -224,17 +237,17 @@ Lin(o) ==
 (* Properties (state predicates over every reachable state).               *)
 (***************************************************************************)
 \* C03: never more than `cap` sent-but-unreceived values.
-BoundedInv == Bounded => Len(buf) <= cfg.cap
+BoundedInv == Bounded => Occupancy <= cfg.cap
 \* C01/C09: a value id is in exactly one place.
 InFlightSend == UNION {Rng(pend[o].vs) : o \in DOMAIN pend}
 InFlightRecv == UNION {Rng(pend[o].got) : o \in DOMAIN pend}
 NoDupInv ==
   /\ \A i, j \in 1..Len(buf) : i # j => buf[i] # buf[j]
-  /\ Rng(buf) \cap out = {}
-  /\ Rng(buf) \cap gone = {}
-  /\ out \cap gone = {}
-  /\ InFlightRecv \cap Rng(buf) = {}
-  /\ InFlightRecv \cap gone = {}
+  /\ cfg.kind = "bc" \/ Rng(buf) \cap out = {}
+  /\ cfg.kind = "bc" \/ Rng(buf) \cap gone = {}
+  /\ cfg.kind = "bc" \/ out \cap gone = {}
+  /\ cfg.kind = "bc" \/ InFlightRecv \cap Rng(buf) = {}
+  /\ cfg.kind = "bc" \/ InFlightRecv \cap gone = {}
 \* C01: oneshot accepts one value ever.
 OneshotInv == cfg.kind = "os" => Len(buf) <= 1
 \* C04: a handle that observed Disconnected is never handed a value afterwards
